@@ -95,6 +95,11 @@ pub enum Fault {
     /// the server is replaced by one that answers every (re-)registration with this non-bind error
     /// code: an unrecoverable error, which must be reported at once, without further attempts
     Impostor { code: u32 },
+    /// H1 close, and a second H1 close `after_ms` after the first reconnect attempt is announced.
+    /// The hook has to wait for the connection lock, which the recovering stream holds until its
+    /// new QUIC stream is open: the second cut therefore lands between the re-registration being
+    /// sent and its answer being read (or, on a fast network, right after the recovery).
+    CloseDuringRecovery { after_ms: u64 },
 }
 
 #[derive(Clone, Copy, Debug, Serialize, Deserialize)]
@@ -355,7 +360,7 @@ async fn scenario(world: Rc<World>, sc: RcScript) -> AResult<(Vec<OutageResult>,
         let t0 = virtual_ms();
         let mut res = OutageResult { fault: o.fault, injected_ms: t0, healed_ms: None, recovered_ms: None, exhausted_ms: None, attempts: vec![], endpoint_first_send: vec![], window: None, seq: vec![] };
         match o.fault {
-            Fault::Close => {
+            Fault::Close | Fault::CloseDuringRecovery { .. } => {
                 victim.verif_close_connection().await;
                 res.healed_ms = Some(t0);
             }
@@ -381,6 +386,7 @@ async fn scenario(world: Rc<World>, sc: RcScript) -> AResult<(Vec<OutageResult>,
         // in timing mode the whole schedule is observed (the scenario's own horizon bounds the run)
         let deadline = if sc.timing_only { t0 + 2 * HORIZON_MS } else { t0 + budget_ms };
         let notify = event_notify();
+        let mut second_cut_done = false;
         loop {
             let left = deadline.saturating_sub(virtual_ms()).max(1);
             tokio::select! {
@@ -389,6 +395,14 @@ async fn scenario(world: Rc<World>, sc: RcScript) -> AResult<(Vec<OutageResult>,
             }
             let evs = victim_events_since(vg, t0);
             res.attempts = evs.iter().filter(|e| e.message.contains("Attempting to reconnect")).map(|e| (field(e, "attempt_num").unwrap_or(0), field(e, "max_attempts").unwrap_or(0), e.at_ms)).collect();
+            if let Fault::CloseDuringRecovery { after_ms } = o.fault {
+                if !second_cut_done && !res.attempts.is_empty() {
+                    second_cut_done = true;
+                    tokio::time::sleep(Duration::from_millis(after_ms)).await;
+                    victim.verif_close_connection().await;
+                    continue;
+                }
+            }
             if let Fault::Partition { failed } = o.fault {
                 if res.healed_ms.is_none() && res.attempts.len() as u32 > failed {
                     // attempt number failed+1 has just been announced: let it through
@@ -548,7 +562,7 @@ pub fn gen_backoff(rng: &mut Rng, wide: bool) -> BackoffCfg {
     };
     let step_ms = if wide { *rng.pick(&[0u64, 1, 50, 700, 5_000, 1_000_000, 1_000_000_000_000]) } else { *rng.pick(&[1u64, 20, 100, 300, 700, 1500]) };
     let max_attempts = if wide { *rng.pick(&[0u32, 1, 2, 3, 5, 8, 21, 66, 130, 300]) } else { *rng.pick(&[0u32, 1, 2, 3, 4, 6]) };
-    let max_ms = if rng.chance(1, 2) { Some(if wide { *rng.pick(&[0u64, 1, 500, 4_000, 60_000]) } else { *rng.pick(&[500u64, 2_000, 4_000]) }) } else { None };
+    let max_ms = if rng.chance(1, 2) { Some(if wide { *rng.pick(&[0u64, 1, 500, 4_000, 60_000, 1_000_000_000_000_000_000]) } else { *rng.pick(&[500u64, 2_000, 4_000]) }) } else { None };
     BackoffCfg { strategy, step_ms, max_attempts, max_ms }
 }
 
@@ -563,6 +577,7 @@ pub enum FaultClass {
     RestartShort,
     RestartLong,
     Impostor,
+    CloseDuringRecovery,
 }
 #[derive(Clone, Copy, Debug, PartialEq)]
 pub enum Repeat {
@@ -574,7 +589,7 @@ pub enum Repeat {
 pub fn c12_points() -> Vec<(Kind, FaultClass, Repeat)> {
     let mut v = vec![];
     for k in [Kind::Publisher, Kind::Subscriber, Kind::Requestor, Kind::Replier] {
-        for f in [FaultClass::Close, FaultClass::PartitionRecovering, FaultClass::PartitionExhausting, FaultClass::RestartShort, FaultClass::RestartLong, FaultClass::Impostor] {
+        for f in [FaultClass::Close, FaultClass::PartitionRecovering, FaultClass::PartitionExhausting, FaultClass::RestartShort, FaultClass::RestartLong, FaultClass::Impostor, FaultClass::CloseDuringRecovery] {
             for r in [Repeat::Once, Repeat::Few, Repeat::BeyondBudget] {
                 v.push((k, f, r));
             }
@@ -603,6 +618,7 @@ pub fn gen_c12(rng: &mut Rng, index: u64) -> RcScript {
             FaultClass::RestartShort => Fault::Restart { down_ms: *rng.pick(&[100u64, 2_000]) },
             FaultClass::RestartLong => Fault::Restart { down_ms: 8_000 },
             FaultClass::Impostor => Fault::Impostor { code: *rng.pick(&[4u32, 6, 0, 77]) },
+            FaultClass::CloseDuringRecovery => Fault::CloseDuringRecovery { after_ms: *rng.pick(&[0u64, 0, 1, 3, 10, 40]) },
         }
     };
     let mut outages = vec![];
@@ -637,6 +653,59 @@ pub fn gen_c13(rng: &mut Rng, thorough: bool) -> RcScript {
 
 const HORIZON_MS: u64 = 200_000_000; // 2 * 10^5 virtual seconds
 
+/// The clock-free part of C13: the schedule object the victim is configured with is compared item
+/// by item with the law computed independently in u128 nanoseconds. (This is a plain reference-
+/// model comparison, not a simulation: the virtual clock cannot tell a delay of 600 years from one
+/// of 10^20 years, both lie beyond any horizon. It is kept inside this family so that every
+/// configuration whose timing is simulated also has its values checked.)
+fn judge_schedule_model(prop: &str, sc: &RcScript, out: &mut Outcome) {
+    let cfg = sc.backoff;
+    let items = std::panic::catch_unwind(|| cfg.build().into_iter().take(cfg.max_attempts as usize + 2).collect::<Vec<_>>());
+    let sig = format!("{:?}", cfg.strategy).to_lowercase();
+    let sig = sig.split('(').next().unwrap_or("").to_string();
+    let items = match items {
+        Ok(v) => v,
+        Err(_) => {
+            let _ = crate::panics::take_all();
+            out.violate(prop, "schedule-panics", &sig, format!("producing the schedule of {cfg:?} panicked"));
+            return;
+        }
+    };
+    if items.len() != cfg.max_attempts as usize {
+        out.violate(prop, "schedule-length", &sig, format!("{cfg:?} yields {} attempts", items.len()));
+    }
+    let dmax = Duration::MAX.as_nanos();
+    let step_ns = (cfg.step_ms as u128) * 1_000_000;
+    for (i, it) in items.iter().enumerate() {
+        let n = i as u32 + 1;
+        let raw = match cfg.strategy {
+            Strategy::Constant => step_ns,
+            Strategy::Linear => step_ns.saturating_mul(n as u128),
+            Strategy::Exponential(f) => {
+                let mut p: u128 = 1;
+                for _ in 1..n {
+                    p = p.saturating_mul(f as u128);
+                }
+                step_ns.saturating_mul(p)
+            }
+        };
+        let mut want = raw.min(dmax);
+        if let Some(m) = cfg.max_ms {
+            want = want.min((m as u128) * 1_000_000);
+        }
+        if it.attempt_num != n || it.max_attempts != cfg.max_attempts {
+            out.violate(prop, "schedule-numbering", &sig, format!("{cfg:?}: item {n} is numbered {} of {}", it.attempt_num, it.max_attempts));
+            return;
+        }
+        if it.duration.as_nanos() != want {
+            let class = if it.duration.as_nanos() > want { "longer" } else { "shorter" };
+            out.violate(prop, "schedule-off-law", &format!("{sig}:{class}"), format!("{cfg:?}: attempt {n} has delay {:?}, the law gives {want} ns", it.duration));
+            return;
+        }
+    }
+    out.probe_n("schedule_items_compared_with_law_model", items.len() as u64);
+}
+
 pub fn execute(prop: &str, sc: &RcScript, opts: &ExecOpts) -> Outcome {
     let mut out = Outcome::default();
     let sc2 = sc.clone();
@@ -656,6 +725,7 @@ pub fn execute(prop: &str, sc: &RcScript, opts: &ExecOpts) -> Outcome {
                     if sc.timing_only {
                         // the schedule outlasts the observation horizon: judged below from the events seen so far
                         out.probe("schedule_beyond_horizon");
+                        judge_schedule_model(prop, sc, &mut out);
                         judge_timing_from_events(prop, sc, &r.events, &mut out, true);
                     } else {
                         out.violate(prop, "scenario-timeout", &sigk, "the reconnect scenario did not finish: an operation hangs".into());
@@ -669,6 +739,7 @@ pub fn execute(prop: &str, sc: &RcScript, opts: &ExecOpts) -> Outcome {
                     let logs = logs.borrow();
                     let max_attempts = sc.backoff.max_attempts;
                     if sc.timing_only {
+                        judge_schedule_model(prop, sc, &mut out);
                         judge_timing(prop, sc, results, &logs, &mut out);
                     } else {
                         judge_recovery(prop, sc, results, &logs, &mut out);
@@ -679,6 +750,7 @@ pub fn execute(prop: &str, sc: &RcScript, opts: &ExecOpts) -> Outcome {
                         th.word(res.exhausted_ms.is_some() as u64);
                         match res.fault {
                             Fault::Close => out.fault("connection_closed_by_hook"),
+                            Fault::CloseDuringRecovery { .. } => out.fault("connection_closed_again_during_re_registration"),
                             Fault::Partition { .. } => out.fault("partition_held_for_failed_attempts"),
                             Fault::Restart { .. } => out.fault("server_restart"),
                             Fault::Impostor { .. } => {}
@@ -789,7 +861,20 @@ fn judge_recovery(prop: &str, sc: &RcScript, results: &[OutageResult], logs: &Lo
             }
             Fault::Restart { .. } => (max >= 3, max == 0),
             Fault::Impostor { .. } => (false, false),
+            // the first attempt may be the one that is cut; a replier additionally meets its own
+            // stale binding, so only the classification of the error is judged for it (below)
+            Fault::CloseDuringRecovery { .. } => (sc.kind != Kind::Replier && max >= 2, max == 0),
         };
+        if let Fault::CloseDuringRecovery { .. } = res.fault {
+            // the server was reachable and refused nothing: whatever cut the re-registration short
+            // is a connection error, i.e. recoverable
+            if let Some(e) = &logs.victim_final {
+                if e.contains("Failed to open stream") && max >= 2 {
+                    out.violate(prop, "recoverable-error-reported-as-unrecoverable", &k, format!("outage {oi}: the connection was cut again while the stream was re-registering; with {} of {max} attempts made the stream gave up with {e:?}", res.attempts.len()));
+                    continue;
+                }
+            }
+        }
         if let Fault::Impostor { code } = res.fault {
             out.fault("server_replaced_by_impostor");
             // the refusal is not a bind error: it must surface as that error, after one attempt
@@ -876,6 +961,7 @@ fn fault_name(f: Fault) -> &'static str {
         Fault::Partition { .. } => "partition",
         Fault::Restart { .. } => "restart",
         Fault::Impostor { .. } => "impostor",
+        Fault::CloseDuringRecovery { .. } => "close-during-recovery",
     }
 }
 
@@ -1057,9 +1143,9 @@ impl Family for ReconnectFamily {
             return None;
         }
         Some(format!(
-            "fault placements: {} points = stream kind {{publisher, subscriber, requestor, replier}} x fault class of the last outage {{close hook, partition healed within the budget, partition held beyond the budget, short restart, long restart, impostor server (unrecoverable error)}} x repetition {{1 outage, 2-3, more than max_attempts}}; every point under ~{} seeded backoff configurations / quiet periods / network schedules",
+            "fault placements: {} points = stream kind {{publisher, subscriber, requestor, replier}} x fault class of the last outage {{close hook, partition healed within the budget, partition held beyond the budget, short restart, long restart, impostor server (unrecoverable error), connection cut again while re-registering}} x repetition {{1 outage, 2-3, more than max_attempts}}; every point under ~{} seeded backoff configurations / quiet periods / network schedules",
             c12_points().len(),
-            if tier == Tier::Quick { 5 } else { 400 }
+            if tier == Tier::Quick { 6 } else { 400 }
         ))
     }
 }
